@@ -8,6 +8,7 @@ CONSTANTS
   Routes = {}
   Layouts = {"flat"}
   Slim = TRUE
+  Spells = {"same"}
   HistKinds = {"list", "int"}
   MaxLookups = 3
 INVARIANT HistoryHolds
